@@ -283,7 +283,8 @@ pub fn build_index(top: &Path, case: &CaseData) -> (gix_index::State, Odb) {
     let mut state = gix_index::State::new(gix_hash::Kind::Sha1);
     let mut objs = HashMap::new();
     for e in &case.entries {
-        let data = if e.kind == b'l' { real_target(top, &e.data) } else { e.data.clone() };
+        // a link that will be written as a regular file (no symlink capability) keeps the case's bytes
+        let data = if e.kind == b'l' && case.flags & F_SYMLINK != 0 { real_target(top, &e.data) } else { e.data.clone() };
         let id = gix_object::compute_hash(gix_hash::Kind::Sha1, gix_object::Kind::Blob, &data);
         objs.insert(id, data);
         state.dangerously_push_entry(
